@@ -14,7 +14,7 @@ for f in sorted(glob.glob(os.path.join(HERE, "seeded", "*", "meta.json"))):
     rows.append((name, m.get("tests", "?").split(" in ")[0], caught, hist.replace("|", "/")))
 out = ["", "### 8.5 Independent seeded changes (sub-agents; `seeded/<id>/`)", "",
        "Each was written by a fresh sub-agent that saw only the property record and its own scratch worktree (nothing from /verif); round 2 (`_r2`)",
-       "agents were additionally told which ideas round 1 had already used. I re-verified every one with `tools/seed_accept.py`: the patch applies to",
+       "agents were additionally told which ideas round 1 had already used (and so on for `_r3` .. `_r7`; round 6 asked for history- and state-dependent changes, round 7 for numerical and structural corners). I re-verified every one with `tools/seed_accept.py`: the patch applies to",
        "/repo's HEAD, the unedited suite passes (102), the author's demo exits 1 with and 0 without the change, and the named check reports it.",
        "%d changes; %d exposed a weakness of my machinery at first, each of which I then repaired by enlarging a lattice or adding an oracle" % (len(rows), missed),
        "(never by loosening anything); the last column says what was wrong and what was done.", "",
